@@ -13,7 +13,7 @@ def c04_nontrivial(inp, obs):
     err = any(t in (4, 5) for t in tags)
     return ins_ok and err
 
-OPN = ['push', 'pop', 'pop2', 'pop3', 'top', 'top2', 'top3', 'discard', 'push_many', 'try_extend', 'set_max', 'size', 'is_empty', 'is_full', 'max']
+OPN = ['push', 'pop', 'pop2', 'pop3', 'top', 'top2', 'top3', 'discard', 'push_many', 'try_extend', 'set_max', 'size', 'is_empty', 'is_full', 'max', 'try_extend(iterator without upper size hint)', 'push_many(exact-size iterator of claimed length)']
 RESN = {0: 'ok', 1: 'values', 2: 'number', 3: 'bool', 4: 'underflow', 5: 'overflow', 9: 'panic'}
 
 def c04_bucket(inp, obs):
@@ -46,7 +46,7 @@ PROPS = {
         corr='CorrC04', judge='(judge_cases judge)', show='(show_cases show [])',
         coq_targets=['theories/Props/C04.vo', 'theories/Corr/CorrC04.vo'],
         nontrivial=c04_nontrivial, bucket=c04_bucket, describe=c04_describe, classify=c04_classify,
-        rule='random operation histories on the real Stack<T> (T = i64, bool, String; length <= 40; capacity 0..8 set and changed mid-history; both bulk forms, also longer than the free space) plus all histories of length <= 3 (quick) / 4 (thorough) over a 9-operation alphabet at capacities 0,1,2; after every operation the result and the full contents (clone + pop all) and max_stack_size are recorded and compared in Coq with the LIFO model. Non-trivial = the history contains a successful insertion and an underflow/overflow error; distinct = distinct histories.',
+        rule='random operation histories on the real Stack<T> (T = i64, bool, String; length <= 40; capacity 0..8 set and changed mid-history; both bulk forms, also longer than the free space; try_extend from an exact-size-hint iterator and from one that reports no upper bound; push_many from an exact-size iterator of a claimed length near usize::MAX where it cannot fit) plus all histories of length <= 3 (quick) / 4 (thorough) over an 11-operation alphabet at capacities 0,1,2; after every operation the result and the full contents (clone + pop all) and max_stack_size are recorded and compared in Coq with the LIFO model. Non-trivial = the history contains a successful insertion and an underflow/overflow error; distinct = distinct histories.',
         trusted=['finite iterators only (an infinite iterator handed to try_extend is not a Coq list)'],
         level_text='Theorems (Props/C04.v): the Vec-level transcription of stack.rs refines an abstract all-or-nothing LIFO over every history of operations (induction on the history), with LIFO order, bulk order, exact discard, error => unchanged stack, underflow payload, and `a successful insertion never exceeds the current maximum` without assuming the stack was within its maximum. Tied to the code by running recorded histories of the real Stack<T> against the model inside coqc.',
         level_note='Trusted: Coq kernel + vm_compute; the Rust harness and Python driver; finite iterators only; contents observed via clone+pop.',
@@ -396,9 +396,15 @@ PROPS['C17'] = dict(
 # ---------------------------------------------------------------------------
 # C10
 C10_KINDS = ['TwoPointXo [Vec;2]', 'TwoPointXo (Vec,Vec)', 'TwoPointXo [Bitstring;2]', 'UniformXo [Vec;2]', 'UniformXo (Vec,Vec)', 'UniformXo [Bitstring;2]',
-             'Bitstring::crossover_gene', 'Bitstring::crossover_segment']
+             'Bitstring::crossover_gene', 'Bitstring::crossover_segment', 'TwoPointXo (Bitstring,Bitstring)', 'UniformXo (Bitstring,Bitstring)',
+             'TwoPointXo on long complementary parents', 'UniformXo on long complementary parents']
+C10_FORMS = ['[Vec;2]', '(Vec,Vec)', '[Bitstring;2]', '(Bitstring,Bitstring)']
 def c10_describe(inp, obs):
-    if inp[0] < 6:
+    if inp[0] == 10:
+        return 'TwoPointXo %s on parents 0^%d and 1^%d, %d seeded draws (seed %d): every child must take ONE contiguous segment from the second parent; observed [0, [[child, count]..]]' % (C10_FORMS[inp[3]], inp[4], inp[4], inp[6], inp[5])
+    if inp[0] == 11:
+        return 'UniformXo %s on parents 0^%d and 1^%d seen through positions %s, %d seeded draws (seed %d): every combination must occur; observed [0, [[genes at those positions, count]..]]' % (C10_FORMS[inp[3]], inp[4], inp[4], inp[5], inp[7], inp[6])
+    if inp[0] < 6 or inp[0] in (8, 9):
         return '%s on parents %s and %s, %d seeded draws (seed %d)%s; observed [0, [[child, count]..]] or [1]=error' % (
             C10_KINDS[inp[0]], inp[1], inp[2], inp[4], inp[3], ', every possible child must occur' if inp[5] else '')
     return '%s on %s / %s with %s; observed [0|1(error), first genome after, second genome after]' % (C10_KINDS[inp[0]], inp[1], inp[2], inp[3:])
@@ -410,9 +416,9 @@ PROPS['C10'] = dict(
     corr='CorrC10', judge='(judge_cases judge)', show='(show_cases show [])',
     coq_targets=['theories/Props/C10.vo', 'theories/Corr/CorrC10.vo'],
     describe=c10_describe, classify=c10_classify,
-    nontrivial=lambda i, o: len(i[1]) >= 1 or len(i[2]) >= 1,
-    bucket=lambda i, o: ['op=%s' % C10_KINDS[i[0]], 'len=%d/%d' % (len(i[1]), len(i[2])), 'outcome=%s' % ({0: 'ok', 1: 'error', -1: 'panic'}.get(o[0] if isinstance(o, list) and o else None, '?'))],
-    rule='TwoPointXo and UniformXo in all three argument forms ([Vec;2], (Vec,Vec), [Bitstring;2]) on position-tagged (vectors) / complementary (bitstrings) parents of length 0..6, 3000 (quick) / 50000 (thorough) seeded draws each: every child must lie in the model support (exact, per draw) and - where the rarest child has probability >= 1/64 - every child of the support must have been drawn (all (n+1)(n+2)/2 segments incl. those touching either end; all 2^n masks for n <= 5); parents of different lengths both ways (error expected); crossover_gene / crossover_segment exhaustively over lengths 0..4 (5 thorough) of both genomes x indices 0..7 x all ranges incl. reversed and out-of-range, result and both genomes afterwards. Non-trivial: non-empty parents.',
+    nontrivial=lambda i, o: len(i[1]) >= 1 or len(i[2]) >= 1 or i[0] >= 10,
+    bucket=lambda i, o: ['op=%s' % C10_KINDS[i[0]], 'len=%d/%d' % ((len(i[1]), len(i[2])) if i[0] < 10 else (i[4], i[4])), 'outcome=%s' % ({0: 'ok', 1: 'error', -1: 'panic'}.get(o[0] if isinstance(o, list) and o else None, '?'))],
+    rule='TwoPointXo and UniformXo in all four argument forms ([Vec;2], (Vec,Vec), [Bitstring;2], (Bitstring,Bitstring)) on position-tagged (vectors) / complementary (bitstrings) parents of length 0..6, 3000 (quick) / 50000 (thorough) seeded draws each: every child must lie in the model support (exact, per draw) and - where the rarest child has probability >= 1/64 - every child of the support must have been drawn (all (n+1)(n+2)/2 segments incl. those touching either end; all 2^n masks for n <= 5); parents of different lengths both ways (error expected); complementary parents of 65..200 genes in all four forms - every two-point child must take one contiguous segment from the second parent, uniform children seen through positions a machine word apart / neighbouring / far apart must show every combination; crossover_gene / crossover_segment exhaustively over lengths 0..4 (5 thorough) of both genomes x indices 0..7 x all ranges incl. reversed and out-of-range, result and both genomes afterwards. Non-trivial: non-empty parents.',
     trusted=['rand::Rng::random_range / random::<bool> as oracles: only their support is used here'],
     assumptions=['the cut-point DISTRIBUTION is not pinned by the property (only which segments can occur)', 'completeness of the support is judged from a finite sample: miss probability < 1e-20 per case'],
     level_text='Theorems (Props/C10.v) about the support model: a two-point child has the parents length, is position-wise parental and takes ONE contiguous segment from the second parent; every segment 0 <= lo <= hi <= n is possible (both ends); empty parents give the empty child; uniform children are position-wise parental and every mask is possible; unequal lengths are errors; the exchange primitives swap exactly the addressed genes or report an error (reversed / out-of-range), never panic. Tied to the code by exact per-draw support membership, observed completeness of the support, and exhaustive exchange arguments.',
@@ -595,7 +601,8 @@ PROPS['C13'] = dict(_SEL_COMMON, post_batch=make_stat_post('C13', sel_obs_code),
 # ---------------------------------------------------------------------------
 # C11 / C12: mutation, uniform crossover, random bitstrings / genes
 MUT_KINDS = {0: 'WithRate Vec<bool>', 1: 'WithRate Bitstring', 2: 'WithOneOverLength Vec<bool>', 3: 'WithOneOverLength Bitstring', 4: 'Umad Vector<i64>',
-             5: 'Umad Bitstring', 6: 'UniformXo', 7: 'Bitstring::random_with_probability', 8: 'Plushy GeneGenerator', 9: 'WithRate Vec<i64>', 10: 'Umad Plushy'}
+             5: 'Umad Bitstring', 6: 'UniformXo', 7: 'Bitstring::random_with_probability', 8: 'Plushy GeneGenerator', 9: 'WithRate Vec<i64>', 10: 'Umad Plushy',
+             11: 'long genome through two positions [op (0/1 WithRate Vec<bool>/Bitstring, 2/3/4 UniformXo [Bitstring;2]/[Vec<bool>;2]/(Bitstring,Bitstring), 5 random bitstring, 6 WithOneOverLength), length, i, j, rate num, rate den]; child = [changed at i, changed at j]'}
 def mut_code(inp, child):
     if inp[2][0] == 8:
         return child[0]
@@ -623,7 +630,7 @@ PROPS['C11'] = dict(_MUT_COMMON, judge='(judge_cases judge_c11)',
 PROPS['C12'] = dict(_MUT_COMMON, judge='(judge_cases judge_c12)', post_batch=make_stat_post('C12', mut_code, mut_hist_of), cov_extra=stat_cov_extra,
     coq_targets=['theories/Props/C12.vo', 'theories/Corr/CorrMut.vo'],
     nontrivial=lambda i, o: True,
-    rule='FULL child distributions (every possible child is a cell): bit-flip at rates {1/16, 1/4, 1/2, 7/8} and 1/len for lengths 1..8 (Vec<bool> and Bitstring alternating); UMAD at (a,d) in {(1/8,1/8), (1/4,1/5), (1/2,1/4), (1,0), (0,1), (1/2,1/3)} on 0..3 tagged genes with a 2-gene alphabet and all empty-genome modes; uniform crossover for lengths 1..6; random bitstrings with p in {0, 1/8, 1/2, 7/8, 1}; Plushy gene generators over 1,2,3,5 instructions with the default (1/(n+1)) and explicit close probabilities. 20000 (quick) / 400000 (thorough) seeded draws per configuration, compared cell by cell with the law computed from the model in coqc (independence and the new-genes-are-deleted-too clause are consequences of the joint law).',
+    rule='FULL child distributions (every possible child is a cell): bit-flip at rates {1/16, 1/4, 1/2, 7/8} and 1/len for lengths 1..8 (Vec<bool> and Bitstring alternating); UMAD at (a,d) in {(1/8,1/8), (1/4,1/5), (1/2,1/4), (1,0), (0,1), (1/2,1/3)} on 0..3 tagged genes with a 2-gene alphabet and all empty-genome modes; uniform crossover for lengths 1..6; random bitstrings with p in {0, 1/8, 1/2, 7/8, 1}; Plushy gene generators over 1,2,3,5 instructions with the default (1/(n+1)) and explicit close probabilities; genomes of 65..257 genes (bit-flip, 1/length flip, uniform crossover in every argument form, random bitstrings) judged through pairs of positions - neighbours and 32/63/64/65/128/256 apart - against the pair marginals proved in C12_flip_marginals / C12_bitstring_pairs / C12_uniform_xo_pairs. 20000 (quick) / 400000 (thorough) seeded draws per configuration, compared cell by cell with the law computed from the model in coqc (independence and the new-genes-are-deleted-too clause are consequences of the joint law).',
     trusted=['rand primitives as oracles', 'statistical tie: Bernstein threshold with delta = 1e-12 per cell, one 10x re-sample before a cell counts; zero-probability children are an exact violation'],
     assumptions=['all rates are dyadic-representable or small rationals; f32/f64 granularity of the rates is far below the test resolution'],
     level_text='Theorems (Props/C12.v) in Q: the bit-flip child distribution is the product law r^h (1-r)^(n-h) (hence independent flips), r n expected flips and exactly one for the 1/length variant; UMAD expected child size n (1-d)(1+a) - new genes being deletable too - and size neutrality at d = a/(1+a); uniform crossover masks are uniform (each position 1/2, independently); random bitstrings follow the product Bernoulli law; a random Plushy gene is a close marker with probability c and otherwise drawn from the instruction distribution, and with the default c = 1/(n+1) all n+1 outcomes are equally likely. Tied to the code by comparing full empirical child distributions with the model law.',
@@ -663,7 +670,8 @@ PROPS['C18'] = dict(
 # C09
 def c09_describe(inp, obs):
     return '%s on population %s, child-maker call #%d fails (-1 / >= size: none); observed [result, population afterwards, log of [saw own population, saw old contents, word1, word2, failed?, child|error]]' % (
-        'serial_next' if inp[0] == 0 else 'par_next (%d rayon threads)' % inp[0], inp[1][:8], inp[2])
+        'serial_next' if inp[0] == 0 else 'par_next (%d rayon threads)' % inp[0], inp[1][:8], inp[2]) + (
+        '; then, on the SAME Generation value, the steps [mode (0 serial / threads), failing call]: %s (observation: 4th element = their [result, population, log])' % inp[3] if len(inp) > 3 else '')
 PROPS['C09'] = dict(
     corr='CorrC09', judge='(judge_cases judge)',
     coq_targets=['theories/Props/C09.vo', 'theories/Corr/CorrC09.vo'],
